@@ -51,6 +51,15 @@ READING OF PYTHON (the trusted part; the Coq side of every item is defined in co
              branch is translated, the assumption is printed above the generated definition, and the same Python function
              may be translated once per assumption set.  Callees may be declared with keyword names and the Python default
              of an omitted keyword (kwdefaults) — a declared fact about the callee's signature.
+  phase 3    `effects` may take ordinary value arguments, return a value (x = self.selector.select(...)), update a local list
+             argument in place, and may be partial; b.extend(<effect call>) is tmp = <effect call>; b.extend(tmp).  The
+             pseudo state path "$world" stands for everything such effects read and change besides their arguments.
+             xs[i] = e, xs[i] op= e and a, b = c, d (right-hand sides first, then the targets left to right) store into
+             an OWNED list: a declared state path (also a list parameter declared as state: the updated list is part of
+             the result) or a fresh non-escaping local; py_set = functional update, IndexError = None.
+             `break` in a for loop = a flag; later iterations are skipped.  a % b on ints = py_mod (ZeroDivisionError).
+             `attr_identity`: a declared attribute is read as the object itself (a solution represented by its
+             normalized_objectives vector in indicators.Hypervolume).
 Anything else raises Unsupported naming the construct and line: the function is NOT emitted, its
 `translate:<function>` obligation is broken, and every Tie file that mentions it no longer builds.
 """
@@ -129,7 +138,7 @@ def coq_type(t, top=True):
 
 # ----------------------------------------------------------------------------------------------- specs
 class Spec:
-    def __init__(self, coq, file, qual, inputs, ret, state=(), defaults=(), effects=None, assume=None):
+    def __init__(self, coq, file, qual, inputs, ret, state=(), defaults=(), effects=None, assume=None, attr_identity=()):
         self.coq, self.file, self.qual = coq, file, qual
         self.key = qual           # name of the translate:<key> obligation (several definitions may come from one function)
         # effects: {callee path: {"args": [object paths], "reads": [state/input paths], "writes": [state paths]}} — a callee
@@ -138,6 +147,8 @@ class Spec:
         # assume: {python expression text: bool} — tests whose outcome is DECLARED (e.g. isinstance(x, int)); printed in the output
         self.assume = dict(assume or {})
         self.used_assumptions = []
+        # attr_identity: attributes that are read as the object itself (a solution REPRESENTED BY its normalized_objectives vector)
+        self.attr_identity = set(attr_identity)
         self.inputs = list(inputs)          # (path, coqname, type)
         self.ret = ret
         self.state = list(state)            # paths that may be stored; must be inputs
@@ -247,6 +258,53 @@ def run_spec(coq, with_callback):
 
 
 SPECS += [run_spec("Algorithm_run", True), run_spec("Algorithm_run_no_callback", False)]
+W = "T_W"
+WORLD = ("$world", "world", W)      # everything the declared effects may read and change besides their arguments (RNG, nfe, evaluator)
+EFF_W = {"reads": ["$world"], "writes": ["$world"]}
+SORT_INPUTS = [("sorted", "sorted", F([L(T), KEY], L(T), kw=("key",))), ("functools.cmp_to_key", "cmp_to_key", F([CMP], KEY)),
+               ("0.comparator", "comparator", CMP)]
+SPECS += [
+    Spec("GeneticAlgorithm_iterate", "platypus/algorithms.py", "GeneticAlgorithm.iterate",
+         [("fuel", "fuel", "nat"), WORLD,
+          ("0.selector.select", "select", F([W, Z, L(T)], ("P", (W, L(T))))),
+          ("0.variator.evolve", "evolve", F([W, L(T)], ("P", (W, L(T))))), ("0.variator.arity", "arity", Z),
+          ("0.evaluate_all", "evaluate_all", F([W, L(T)], ("P", (W, L(T))))),
+          ("0.offspring_size", "offspring_size", Z), ("0.population_size", "population_size", Z)] + SORT_INPUTS +
+         [("0.population", "population", L(T)), ("0.fittest", "fittest", T)],
+         None, state=["$world", "0.population", "0.fittest"],
+         effects={"0.selector.select": dict(EFF_W, vals=[Z, L(T)], ret=L(T)),
+                  "0.variator.evolve": dict(EFF_W, vals=[L(T)], ret=L(T)),
+                  "0.evaluate_all": dict(EFF_W, vals=[L(T)], inplace=[0])}),
+    Spec("EvolutionaryStrategy_iterate", "platypus/algorithms.py", "EvolutionaryStrategy.iterate",
+         [WORLD, ("0.variator.evolve", "evolve", F([W, L(T)], ("P", (W, L(T))))),
+          ("0.evaluate_all", "evaluate_all", F([W, L(T)], ("P", (W, L(T))))),
+          ("0.offspring_size", "offspring_size", Z), ("0.population_size", "population_size", Z)] + SORT_INPUTS +
+         [("0.population", "population", L(T))],
+         None, state=["$world", "0.population"],
+         effects={"0.variator.evolve": dict(EFF_W, vals=[L(T)], ret=L(T)),
+                  "0.evaluate_all": dict(EFF_W, vals=[L(T)], inplace=[0])}),
+    Spec("GDE3_survival", "platypus/algorithms.py", "GDE3.survival",
+         [("0.dominance.compare", "compare", F([T, T], Z)),
+          ("nondominated_sort", "nondominated_sort", F([L(T)], L(T), partial=True)),
+          ("nondominated_prune", "nondominated_prune", F([L(T), Z], L(T), partial=True)),
+          ("0.population_size", "population_size", Z), ("0.population", "population", L(T)), ("1", "offspring", L(T))],
+         L(T),
+         effects={"nondominated_sort": {"reads": [], "writes": [], "vals": [L(T)], "inplace": [0], "partial": True}}),
+]
+PT = L(V)       # a solution represented by its normalized_objectives vector
+HV = dict(attr_identity=["normalized_objectives"])
+SPECS += [
+    Spec("Hypervolume_dominates", "platypus/indicators.py", "Hypervolume.dominates",
+         [("1", "solution1", PT), ("2", "solution2", PT), ("3", "nobjs", Z)], B, **HV),
+    Spec("Hypervolume_swap", "platypus/indicators.py", "Hypervolume.swap",
+         [("1", "solutions", L(PT)), ("2", "i", Z), ("3", "j", Z)], None, state=["1"], **HV),
+    Spec("Hypervolume_surface_unchanged_to", "platypus/indicators.py", "Hypervolume.surface_unchanged_to",
+         [("1", "solutions", L(PT)), ("2", "nsols", Z), ("3", "obj", Z)], V, **HV),
+    Spec("Hypervolume_reduce_set", "platypus/indicators.py", "Hypervolume.reduce_set",
+         [("fuel", "fuel", "nat"), ("0.swap", "swap", F([L(PT), Z, Z], L(PT), partial=True)),
+          ("1", "solutions", L(PT)), ("2", "nsols", Z), ("3", "obj", Z), ("4", "threshold", V)], Z, state=["1"],
+         effects={"0.swap": {"args": ["1"], "vals": [Z, Z], "reads": ["1"], "writes": ["1"], "partial": True}}, **HV),
+]
 NOT_SOLUTIONS = {"isinstance(<0>, Solution)": False, "isinstance(<1>, Solution)": False}
 SPECS += [
     # distance.py on two objective vectors (the isinstance(…, Solution) unwrapping is declared not taken)
@@ -261,7 +319,7 @@ RESERVED = set("""
 as at cofix else end exists exists2 fix for forall fun if IF in let match mod return Set Prop Type then using where with
 V O T Z Q nat list bool option true false Some None tt negb andb orb xorb fst snd pair map seq nth length app rev
 ctl Next Ret Raise bind get finish for_list for_range while_fuel zrange py_index py_len map_opt py_compress py_any py_zip
-py_upto py_from py_but_last py_div py_min py_max b2z py_last NumOps Qops yielded brk obind py_sum py_upto_z py_list_min py_list_max
+py_upto py_from py_but_last py_div py_min py_max b2z py_last NumOps Qops yielded brk obind py_sum py_upto_z py_list_min py_list_max py_mod world py_set list_upd
 n_lt n_le n_eq n_neg n_add n_sub n_mul n_div n_abs n_floor n_of_Z n_lit
 """.split())
 
@@ -450,7 +508,7 @@ class FnTranslator:
         if self.generator and not is_list(spec.ret):
             raise Unsupported("generator function where the declared result is not a list", fn)
         fn.body = self.desugar_iterators(fn.body)
-        self.escaping = self.escaping_names(fn)
+        self.escaping = self.escaping_names(fn, {k.split(".")[-1] for k in spec.effects})
 
     def desugar_iterators(self, stmts):
         """it = iter(X); try: while True: BODY(next(it))  except StopIteration: HANDLER
@@ -503,7 +561,7 @@ class FnTranslator:
         return out
 
     @staticmethod
-    def escaping_names(fn):
+    def escaping_names(fn, effect_names=()):
         """names that occur (as a value) anywhere except: receiver of .append/.insert, len(b), b[...], for ... in b, return b.
         A list bound to such a name may be referenced from elsewhere, so it is never updated in place."""
         ok = set()
@@ -525,6 +583,11 @@ class FnTranslator:
                     ok.add(id(f.value))
                 if isinstance(f, ast.Name) and f.id == "len" and len(n.args) == 1 and isinstance(n.args[0], ast.Name):
                     ok.add(id(n.args[0]))
+                fname = f.attr if isinstance(f, ast.Attribute) else (f.id if isinstance(f, ast.Name) else None)
+                if fname in effect_names:           # a declared effect does not keep a reference to its arguments
+                    for a in n.args:
+                        if isinstance(a, ast.Name):
+                            ok.add(id(a))
             elif isinstance(n, ast.Subscript) and isinstance(n.value, ast.Name):
                 ok.add(id(n.value))
             elif isinstance(n, ast.For) and isinstance(n.iter, ast.Name):
@@ -632,6 +695,11 @@ class FnTranslator:
         raise Unsupported("use of the object %s as a value" % self.show_path(path), n)
 
     def e_Attribute(self, n, env, H):
+        if n.attr in self.spec.attr_identity:
+            x = self.expr(n.value, env, H)
+            if is_list(x.ty):
+                return x
+            raise Unsupported("attribute .%s of a value that is not represented by it" % n.attr, n)
         path = self.path_of(n, env)
         if path is None:
             raise Unsupported("attribute ." + n.attr + " of an expression that is not a parameter path", n)
@@ -687,6 +755,11 @@ class FnTranslator:
             if b.ty == ZLIT and b.lit == 2:
                 return self.square(a, env)
             raise Unsupported("** with an exponent other than the literal 2", n)
+        if op == "Mod":
+            a, b = settle(a), settle(b)
+            if a.ty == Z and b.ty == Z:
+                return self.hoist("py_mod %s %s" % (atom(a.s), atom(b.s)), Z, env, H, n, "% (ZeroDivisionError)")
+            raise Unsupported("% on non-ints", n)
         if op not in ("Add", "Sub", "Mult", "Div"):
             raise Unsupported("binary operator " + op, n)
         a, b = self.as_num(a, n), self.as_num(b, n)
@@ -1049,7 +1122,7 @@ class FnTranslator:
 
     def s_Break(self, s, rest, env, tail):
         if not self.loop_tails:
-            raise Unsupported("break outside a while loop", s)
+            raise Unsupported("break outside a loop", s)
         env = env.copy()
         env.names["%brk"] = ("local", "true", B)
         return ["Next " + atom(tuple_of(self.current(self.loop_tails[-1], env)))]
@@ -1068,6 +1141,14 @@ class FnTranslator:
             elif isinstance(t, (ast.Tuple, ast.List)):
                 for e in t.elts:
                     tgt(e)
+            elif isinstance(t, ast.Subscript) and not isinstance(t.slice, ast.Slice):
+                p = self.path_of(t.value, env) if env is not None else None
+                if p is not None and p in self.spec.state:
+                    add("@" + p)
+                elif isinstance(t.value, ast.Name):
+                    add(t.value.id)
+                else:
+                    add("?item store into " + ast.unparse(t.value)[:30])
             elif isinstance(t, ast.Attribute) or (isinstance(t, ast.Subscript) and self.full_slice(t) and isinstance(t.value, ast.Attribute)):
                 t0 = t if isinstance(t, ast.Attribute) else t.value
                 p = self.path_of(t0, env) if env is not None else None
@@ -1096,13 +1177,70 @@ class FnTranslator:
                         add(f.value.id)
                 elif isinstance(s, ast.Expr) and isinstance(s.value, ast.Yield):
                     add("%out")
-                if isinstance(s, ast.Expr) and isinstance(s.value, ast.Call) and env is not None:
-                    fp = self.effect_key(s.value, env, loose=True)[0]
-                    if fp in self.spec.effects:
-                        for w in self.spec.effects[fp]["writes"]:
-                            add("@" + w)
+                if env is not None:
+                    for call in [x for x in ast.walk(s) if isinstance(x, ast.Call)] if isinstance(s, (ast.Expr, ast.Assign)) else []:
+                        fp = self.effect_key(call, env, loose=True)[0]
+                        if fp in self.spec.effects:
+                            ef = self.spec.effects[fp]
+                            for w in ef["writes"]:
+                                add("@" + w)
+                            nobj = len(ef.get("args", []))
+                            for k in ef.get("inplace", []):
+                                if nobj + k < len(call.args) and isinstance(call.args[nobj + k], ast.Name):
+                                    add(call.args[nobj + k].id)
         walk(stmts)
         return out
+
+    def effect_call(self, v, fp, recv, env, s, target, rest, tail):
+        """a call of a declared effect, as a statement (target None) or as the right-hand side of  target = call"""
+        ef = self.spec.effects[fp]
+        objs = ef.get("args", [])
+        vals = ef.get("vals", [])
+        if v.keywords or len(v.args) != len(objs) + len(vals):
+            raise Unsupported("call of %s with %d arguments (declared %d)" % (self.show_path(fp), len(v.args), len(objs) + len(vals)), s)
+        if any(self.path_of(a, env) != p for a, p in zip(v.args, objs)):
+            raise Unsupported("call of %s with arguments other than the declared objects" % self.show_path(fp), s)
+        if self.pure:
+            raise NeedCtl()
+        if ef.get("ret") is None and target is not None:
+            raise Unsupported("use of the result of %s (declared to return nothing)" % self.show_path(fp), s)
+        c, ft = env.inputs[fp]
+        H = []
+        args = ([recv] if recv is not None else []) + [self.read_path(r, env, s) for r in ef["reads"]]
+        valnodes = v.args[len(objs):]
+        for a, t in zip(valnodes, vals):
+            args.append(coerce(self.expr(a, env, H), t, a))
+        env = env.copy()
+        names = []
+        for w in ef["writes"]:
+            cw = env.inputs[w][0] + "'"
+            env.state[w] = (cw, env.inputs[w][1])
+            names.append(cw)
+        for k in ef.get("inplace", []):
+            a = valnodes[k]
+            b = env.names.get(a.id) if isinstance(a, ast.Name) else None
+            if not (b and b[0] == "local" and is_list(b[2])):
+                raise Unsupported("argument %d of %s (updated in place) is not a local list" % (k, self.show_path(fp)), s)
+            if a.id not in env.fresh_lists:
+                raise Unsupported("in-place update by %s of the list %s, which may be referenced elsewhere" % (self.show_path(fp), a.id), s)
+            names.append(env.bind(a.id, vals[k]))
+        if ef.get("ret") is not None:
+            if target is None:
+                names.append("_")
+            elif isinstance(target, ast.Name):
+                pat, _ = self.store(target, X("?", ef["ret"], fresh=is_list(ef["ret"])), env, s)
+                names.append(pat)
+            else:
+                raise Unsupported("assignment target of an effect call", s)
+        call = c + " " + " ".join(atom(r.s) for r in args)
+        body = self.block(rest, env, tail)
+        pat = pat_of(names) if names else "_"
+        if ef.get("partial"):
+            lines = ["get (%s) (fun %s =>" % (call, pat)] + body
+            lines[-1] += ")"
+        else:
+            lines = ["let %s := %s in" % (pat, call)] + body
+        return self.with_hoists(H, lines) if H else lines
 
     def effect_key(self, call, env, loose=False):
         """key of spec.effects for a call in statement position: the path of the callee, or "@<type>.<method>" for a method
@@ -1233,6 +1371,13 @@ class FnTranslator:
         if len(s.targets) != 1:
             raise Unsupported("chained assignment", s)
         tg = s.targets[0]
+        # xs[i] = e  on an owned list (a declared state path or a fresh local list)
+        if isinstance(tg, ast.Subscript) and not isinstance(tg.slice, ast.Slice):
+            return self.multi_store([tg], [s.value], s, rest, env, tail)
+        # t1, t2 = e1, e2 : the right-hand sides are evaluated first, then the targets are stored left to right
+        if isinstance(tg, ast.Tuple) and isinstance(s.value, ast.Tuple) and len(tg.elts) == len(s.value.elts) \
+                and all(isinstance(t, (ast.Name, ast.Subscript)) for t in tg.elts):
+            return self.multi_store(list(tg.elts), list(s.value.elts), s, rest, env, tail)
         # q, r = divmod(a, k)   with a literal k != 0: floor division and remainder (Z.div / Z.modulo)
         if isinstance(tg, ast.Tuple):
             v = s.value
@@ -1253,13 +1398,77 @@ class FnTranslator:
             env = env.copy()
             env.names[tg.id] = ("path", p)
             return self.block(rest, env, tail)
+        if isinstance(s.value, ast.Call):
+            fp, recv = self.effect_key(s.value, env)
+            if fp in self.spec.effects:
+                return self.effect_call(s.value, fp, recv, env, s, tg, rest, tail)
         H = []
         x = self.expr(s.value, env, H)
         env = env.copy()
         pat, x = self.store(tg, x, env, s)
         return self.let_lines(H, pat, x, self.block(rest, env, tail))
 
+    def owned_list(self, node, env, s):
+        """(kind, key, X) of the list a subscript store goes into: a declared state path or a fresh, non-escaping local"""
+        p = self.path_of(node, env)
+        if p is not None and p in self.spec.state and is_list(env.inputs[p][1]):
+            return "state", p, self.read_path(p, env, s)
+        if isinstance(node, ast.Name):
+            b = env.names.get(node.id)
+            if b and b[0] == "local" and is_list(b[2]):
+                if node.id not in env.fresh_lists or node.id in self.escaping:
+                    raise Unsupported("item store into the list %s, which may be referenced elsewhere" % node.id, s)
+                return "local", node.id, X(b[1], b[2])
+        raise Unsupported("item store into %s (neither a declared state path nor a local list)" % ast.unparse(node)[:40], s)
+
+    def multi_store(self, targets, values, s, rest, env, tail):
+        if self.pure:
+            raise NeedCtl()
+        H = []
+        vals = [settle(self.expr(v, env, H)) for v in values]
+        lines_pre = []
+        # freeze the right-hand sides before any store
+        tmps = []
+        for k, x in enumerate(vals):
+            if IDENT.match(x.s):
+                tmps.append(x)
+            else:
+                nm = env.fresh("rhs")
+                lines_pre.append("let %s := %s in" % (nm, x.s))
+                tmps.append(X(nm, x.ty, fresh=x.fresh))
+        env = env.copy()
+        opens = 0
+        for t, x in zip(targets, tmps):
+            if isinstance(t, ast.Name):
+                pat, x2 = self.store(t, x, env, s)
+                lines_pre.append("let %s := %s in" % (pat, x2.s))
+                continue
+            if isinstance(t.slice, ast.Slice):
+                raise Unsupported("slice store", s)
+            kind, key, lst = self.owned_list(t.value, env, s)
+            H2 = []
+            idx = coerce(self.expr(t.slice, env, H2), Z, t.slice)
+            for nm, tx in H2:
+                lines_pre.append("get (%s) (fun %s =>" % (tx, nm))
+                opens += 1
+            xv = coerce(x, lst.ty[1], s) if lst.ty[1] is not None else x
+            if kind == "state":
+                c = env.inputs[key][0] + "'"
+                env.state[key] = (c, env.inputs[key][1])
+            else:
+                c = env.bind(key, L(xv.ty))
+            lines_pre.append("get (py_set %s %s %s) (fun %s =>" % (atom(lst.s), atom(idx.s), atom(xv.s), c))
+            opens += 1
+        body = self.block(rest, env, tail)
+        body[-1] += ")" * opens
+        lines = lines_pre + body
+        return self.with_hoists(H, lines) if H else lines
+
     def s_AugAssign(self, s, rest, env, tail):
+        if isinstance(s.target, ast.Subscript) and not isinstance(s.target.slice, ast.Slice):
+            load = ast.copy_location(ast.Subscript(value=s.target.value, slice=s.target.slice, ctx=ast.Load()), s.target)
+            v = ast.copy_location(ast.BinOp(left=load, op=s.op, right=s.value), s)
+            return self.multi_store([s.target], [v], s, rest, env, tail)
         if isinstance(s.target, ast.Name):
             b = env.names.get(s.target.id)
             if b and (b[0] != "local" or is_list(b[2])) and not (b[0] == "path" and b[1] in env.inputs and not is_list(env.inputs[b[1]][1])):
@@ -1290,22 +1499,18 @@ class FnTranslator:
         if isinstance(v, ast.Call):
             fp, recv = self.effect_key(v, env)
             if fp in self.spec.effects:
-                ef = self.spec.effects[fp]
-                if v.keywords or len(v.args) != len(ef["args"]) or \
-                        any(self.path_of(a, env) != p for a, p in zip(v.args, ef["args"])):
-                    raise Unsupported("call of %s with arguments other than the declared objects" % self.show_path(fp), s)
-                if self.pure:
-                    raise NeedCtl()
-                c, ft = env.inputs[fp]
-                reads = ([recv] if recv is not None else []) + [self.read_path(r, env, s) for r in ef["reads"]]
-                env = env.copy()
-                names = []
-                for w in ef["writes"]:
-                    cw = env.inputs[w][0] + "'"
-                    env.state[w] = (cw, env.inputs[w][1])
-                    names.append(cw)
-                call = c + " " + " ".join(atom(r.s) for r in reads)
-                return ["let %s := %s in" % (pat_of(names), call)] + self.block(rest, env, tail)
+                return self.effect_call(v, fp, recv, env, s, None, rest, tail)
+            # b.extend(<effect call>) / b.append(<effect call>):  tmp = <effect call>; b.extend(tmp)
+            if isinstance(v.func, ast.Attribute) and v.func.attr in ("extend", "append") and len(v.args) == 1 \
+                    and isinstance(v.args[0], ast.Call) and self.effect_key(v.args[0], env)[0] in self.spec.effects:
+                self.tmpcount += 1
+                tmp = "%s_arg%d" % (v.func.attr, self.tmpcount)
+                a1 = ast.copy_location(ast.Assign(targets=[ast.Name(id=tmp, ctx=ast.Store())], value=v.args[0]), s)
+                call2 = ast.copy_location(ast.Call(func=v.func, args=[ast.Name(id=tmp, ctx=ast.Load())], keywords=[]), s)
+                e2 = ast.copy_location(ast.Expr(value=call2), s)
+                ast.fix_missing_locations(a1)
+                ast.fix_missing_locations(e2)
+                return self.block([a1, e2] + list(rest), env, tail)
         # b.append(e)  /  b.insert(0, e)  /  b.extend(xs) on a local list
         if isinstance(v, ast.Call) and isinstance(v.func, ast.Attribute) and isinstance(v.func.value, ast.Name) \
                 and v.func.attr in ("append", "insert", "extend") and not v.keywords:
@@ -1469,9 +1674,16 @@ class FnTranslator:
             raise NeedCtl()
         if s.orelse:
             raise Unsupported("for/else", s)
+        has_break = False
         for x in ast.walk(s):
-            if isinstance(x, (ast.Break, ast.Continue)):
-                raise Unsupported(type(x).__name__.lower(), x)
+            if isinstance(x, ast.Continue):
+                raise Unsupported("continue", x)
+            if isinstance(x, ast.Break):
+                has_break = True
+        for st in s.body:
+            for x in ast.walk(st):
+                if isinstance(x, (ast.For, ast.While)) and any(isinstance(y, ast.Break) for y in ast.walk(x)):
+                    raise Unsupported("break inside a nested loop", x)
         if not isinstance(s.target, ast.Name):
             raise Unsupported("loop target " + type(s.target).__name__, s)
         stored = self.assigned(s.body, env)
@@ -1487,16 +1699,28 @@ class FnTranslator:
             if v in env.names and env.names[v][0] == "local":
                 vars_.append(v)
         vars_.sort(key=lambda v: (1, self.spec.state.index(v[1:])) if v.startswith("@") else (0, env.order.index(v)))
+        pre = []
+        if has_break:
+            # "break" = set the flag; every later iteration is skipped
+            env = env.copy()
+            pre.append("let %s := false in" % env.bind("%brk", B))
+            vars_.append("%brk")
         types = self.types_of(vars_, env)
         init = tuple_of(self.current(vars_, env))
         eb = env.copy()
         names = self.rebind(vars_, eb, types)
         iv = eb.bind(s.target.id, ivar_ty)
-        body = self.block(s.body, eb, vars_)
+        self.loop_tails.append(vars_)
+        try:
+            body = self.block(s.body, eb, vars_)
+        finally:
+            self.loop_tails.pop()
+        if has_break:
+            body = ["if brk then", "  Next " + atom(tuple_of(names)), "else"] + indent(body)
         types2 = self.merge_types(vars_, types, self.types_of(vars_, eb), s)
         env2 = env.copy()
         names2 = self.rebind(vars_, env2, types2)
-        lines = ["bind (%s (fun %s %s =>" % (prefix, iv, pat_of(names, types))] + indent(body, 4)
+        lines = pre + ["bind (%s (fun %s %s =>" % (prefix, iv, pat_of(names, types))] + indent(body, 4)
         lines[-1] += ") %s%s) (fun %s =>" % (suffix, atom(init), pat_of(names2))
         lines += self.block(rest, env2, tail)
         lines[-1] += ")"
@@ -1627,11 +1851,13 @@ class FnTranslator:
                 raise Unsupported("parameter %s has no default value any more" % dn, fn)
         lines = None
         pre = []
+        self.tmpcount = 0
         if self.generator:
             c = env0.bind("%out", spec.ret)
             pre = ["let %s := [] in" % c]
         for pure in ((False,) if self.generator else (True, False)):
             self.pure = pure
+            self.tmpcount = 0
             try:
                 lines = pre + self.block(fn.body, env0.copy(), None)
                 break
@@ -1663,7 +1889,7 @@ class FnTranslator:
 
 # ----------------------------------------------------------------------------------------------- driver
 HEADER = """(* GENERATED by harness/translate/py2coq_core.py from the Python source of platypus/core.py, platypus/_math.py and
-   platypus/types.py, evaluator.py, filters.py, distance.py — do not edit.  Regenerated on every run of the checks that use it; rewritten only
+   platypus/types.py, evaluator.py, filters.py, distance.py, algorithms.py, indicators.py — do not edit.  Regenerated on every run of the checks that use it; rewritten only
    when its content changes.  The reading of Python is fixed by coq/Base/PyCore.v (see its header); the hand models
    are NOT imported here: coq/Tie/T*.v prove each definition below equal to its hand model. *)
 From Coq Require Import ZArith QArith Bool List.
